@@ -1,20 +1,33 @@
 #!/bin/bash
-# tools/seed_matrix.sh [pattern]: for every kept seed (/verif/seeded/<id>-<x>/patch.diff, optionally filtered by a
-# glob pattern) runs the quick check of the property it targets in a side laboratory (tools/lab.sh: scratch worktree
-# of /repo's HEAD + scratch copy of /verif; neither /repo nor /verif is touched) and writes /verif/seeded/RESULTS.md.
+# tools/seed_matrix.sh [pattern] [parallel]: for every kept seed (/verif/seeded/<id>-<x>/patch.diff, optionally filtered by
+# a glob pattern) runs the quick check of the property it targets in a side laboratory (tools/lab.sh with the committed
+# harness: scratch worktree of /repo's HEAD + a copy of /verif's HEAD; neither /repo nor /verif is touched) and writes
+# /verif/seeded/RESULTS.md. A patch that no longer applies to /repo's HEAD (a later fix: commit touched the same lines)
+# is applied with a 3-way merge when that is conflict-free, else listed as not applicable.
 pat=${1:-C*}
+par=${2:-3}
 out=/verif/seeded/RESULTS.md
-tmp=$(mktemp)
-for d in $(ls -d /verif/seeded/$pat/ | xargs -n1 basename); do
-  id=${d%%-*}
-  line=$(LAB_IDS=3 /verif/tools/lab.sh m_$d /verif/seeded/$d/patch.diff $id 2>&1 | grep "^m_$d $id" | head -1)
-  if [ -z "$line" ]; then echo "| $d | $id | - | patch does not apply at HEAD |" >> $tmp; echo "$d: patch does not apply"; continue; fi
+tmpd=$(mktemp -d)
+one() {
+  d=$1; id=${d%%-*}; p=/verif/seeded/$d/patch.diff
+  if ! git -C /repo apply --check $p 2>/dev/null; then
+    wt=$(mktemp -d /tmp/lab/reb_XXXX); git -C /repo worktree add --detach $wt HEAD >/dev/null 2>&1
+    if git -C $wt apply --3way $p >/dev/null 2>&1 && ! git -C $wt diff --name-only --diff-filter=U | grep -q .; then
+      git -C $wt diff HEAD > $tmpd/$d.rebased.diff; p=$tmpd/$d.rebased.diff
+    else p=""; fi
+    git -C /repo worktree remove --force $wt >/dev/null 2>&1
+  fi
+  if [ -z "$p" ]; then echo "| $d | $id | - | patch does not apply at HEAD |" > $tmpd/$d.row; echo "$d: patch does not apply"; return; fi
+  line=$(LAB_COMMITTED=1 LAB_IDS=3 /verif/tools/lab.sh m_$d $p $id 2>&1 | grep "^m_$d $id" | head -1)
   rc=$(echo "$line" | sed -n 's/.* exit=\([0-9]*\) .*/\1/p')
   ids=$(echo "$line" | sed 's/.*wall=[0-9.]*s //; s/^m_[^ ]* [^ ]* exit=[0-9]* *//' | sed 's/|/\\|/g')
-  echo "| $d | $id | $rc | ${ids:-none} |" >> $tmp
+  echo "| $d | $id | ${rc:-?} | ${ids:-none} |" > $tmpd/$d.row
   echo "$d $id exit=$rc"
-done
-{ echo "# Seeded changes versus the quick check of the targeted property (HEAD $(git -C /repo log --format=%h -1), $(date -u +%F))"; echo;
+}
+export -f one; export tmpd
+mkdir -p /tmp/lab
+ls -d /verif/seeded/$pat/ | xargs -n1 basename | xargs -P $par -I{} bash -c 'one {}'
+{ echo "# Seeded changes versus the quick check of the targeted property (/repo HEAD $(git -C /repo log --format=%h -1), /verif HEAD $(git -C /verif log --format=%h -1), $(date -u +%F))"; echo;
   echo "exit 1 = the check reports a VIOLATION with the seed applied (caught); 0 = not caught."; echo;
-  echo "| seed | check | exit | first violation identities |"; echo "|---|---|---|---|"; sort $tmp; } > $out
-rm -f $tmp
+  echo "| seed | check | exit | first violation identities |"; echo "|---|---|---|---|"; cat $tmpd/*.row | sort; } > $out
+rm -rf $tmpd
